@@ -279,6 +279,23 @@ theorem index_beyond_len_raises (cfg : Cfg) (s : ISet α) (h : Inv s) (k : Nat) 
     s.getItem (k : Int) = .error .indexError ∧ s.popAt cfg (k : Int) = .error .indexError :=
   ⟨getItem_beyond s h k hk, popAt_beyond cfg s h k hk⟩
 
+/-- **the thresholds bound the garbage**: after ANY history (any arguments, valid or not) the dead-interval
+    table has at most `limit` (384) entries and the tombstones are at most a `1/factor` (1/8) share of the
+    slots of `item_list` - for every value of the two thresholds.  (This is what keeps index translation
+    cheap; the statement does not ask for it, the anchored mechanism "culled and compacted at thresholds" does.) -/
+theorem garbage_bounded (cfg : Cfg) (le : α → α → Bool) (init : List α) (ops : List (Op α)) :
+    (runState cfg le (start init) ops).dead.length ≤ cfg.limit ∧
+    ((runState cfg le (start init) ops).items.length - (runState cfg le (start init) ops).idx.length) * cfg.factor
+      ≤ (runState cfg le (start init) ops).items.length :=
+  runState_bounded cfg le ops _ (start_refines init).1
+    (foldl_add_bounded cfg init _ inv_empty (bounded_noDead cfg _ inv_empty.toInvC rfl))
+
+/-- one step: `_cull` restores both bounds whatever it is handed -/
+theorem cull_restores_bounds (cfg : Cfg) (s : ISet α) (h : InvC s) :
+    (cull cfg s).dead.length ≤ cfg.limit ∧
+    ((cull cfg s).items.length - (cull cfg s).idx.length) * cfg.factor ≤ (cull cfg s).items.length :=
+  cull_bounded cfg s (cull_spec cfg s h).1.toInvC
+
 /-! ### non-vacuity: concrete states and histories that satisfy the hypotheses -/
 
 def natLe (a b : Nat) : Bool := a ≤ b
@@ -340,5 +357,13 @@ example : runOuts cfgReal natLe (start (List.range 10)) [.remove 3, .slice (some
 /-- beyond the end with a tombstone inside: 9 live items in 10 slots, `s[9]` and `pop(9)` raise -/
 example : runOuts cfgReal natLe (start (List.range 10)) [.remove 3, .get 9, .popAt 9, .get 8]
     = [.unit, .err .indexError, .err .indexError, .item 9] := by decide +kernel
+
+/-- the threshold at work: 16 items, two removals leave 2 tombstones in 16 slots (2*8 = 16, not above),
+    the third one (3*8 > 16) compacts: 13 slots, no interval -/
+example : (runState cfgReal natLe (start (List.range 16)) [.remove 0, .remove 1]).items.length = 16 ∧
+    (runState cfgReal natLe (start (List.range 16)) [.remove 0, .remove 1]).dead = [(0, 2)] ∧
+    (runState cfgReal natLe (start (List.range 16)) [.remove 0, .remove 1, .remove 2]).items.length = 13 ∧
+    (runState cfgReal natLe (start (List.range 16)) [.remove 0, .remove 1, .remove 2]).dead = [] := by
+  decide +kernel
 
 end C11
